@@ -457,3 +457,6 @@ def run(ctx):
     errdisc.check(ctx, 'C13.RD', 'C13', 42)
     from .. import boundaries as _b
     _b.check_predicates(ctx, 'C13.RP', 'C13')
+    from .. import tstate
+    r8 = ctx.rule('C13.R8', 'TSTATE', 'no message is generated with a head after its head: the predicate that admits interim (1xx) HEADERS, State::is_send_awaiting_headers, agrees with the reference on all 15 states (true only while the final response head has not been sent)')
+    tstate.predicates(r8, ctx.facts, ['is_send_awaiting_headers'])
